@@ -28,6 +28,15 @@ type Valuation struct {
 	Enter func(f *ssa.Function) bool
 
 	cur *wframe
+	// bind remembers, for every parameter of an entered callee, the argument
+	// (and its frame) of the latest entry, so that values handed out of a
+	// finished callee can still be rooted
+	bind map[*ssa.Parameter]boundArg
+}
+
+type boundArg struct {
+	v ssa.Value
+	f *wframe
 }
 
 // wframe is one activation of a function during a walk.
@@ -66,6 +75,9 @@ type WalkResult struct {
 	// RetInt / RetBool: the results of the final return, where they evaluate
 	RetInt  map[int]int64
 	RetBool map[int]bool
+	// RetVal: the returned values, followed through entered callees' parameters,
+	// results and the phis resolved on the path
+	RetVal map[int]ssa.Value
 }
 
 // Root follows v through parameters of entered callees to the value of the
@@ -90,6 +102,10 @@ func (val *Valuation) rootIn(f *wframe, v ssa.Value) (ssa.Value, *wframe) {
 						goto next
 					}
 				}
+			}
+			if ba, ok := val.bind[x]; ok && ba.f != nil {
+				v, f = ba.v, ba.f
+				goto next
 			}
 			return v, f
 		case *ssa.Phi:
@@ -286,6 +302,21 @@ func (val *Valuation) evalBool(f *wframe, v ssa.Value, phi map[*ssa.Phi]ssa.Valu
 			a, ok1 := val.evalInt(f, x.X, phi, depth+1)
 			b, ok2 := val.evalInt(f, x.Y, phi, depth+1)
 			if !ok1 || !ok2 {
+				// comparison with nil: decided when the other side is rooted in a
+				// nil constant or in a freshly made (hence non-nil) value
+				if x.Op == token.EQL || x.Op == token.NEQ {
+					var other ssa.Value
+					if IsNilConst(x.X) {
+						other = x.Y
+					} else if IsNilConst(x.Y) {
+						other = x.X
+					}
+					if other != nil {
+						if isNil, known := val.nilness(f, other); known {
+							return isNil == (x.Op == token.EQL), true
+						}
+					}
+				}
 				// boolean equality
 				if x.Op == token.EQL || x.Op == token.NEQ {
 					p, ok3 := val.evalBool(f, x.X, phi, depth+1)
@@ -327,6 +358,29 @@ func (val *Valuation) evalBool(f *wframe, v ssa.Value, phi map[*ssa.Phi]ssa.Valu
 	return false, false
 }
 
+// nilness: is v (rooted through phis, parameters and entered calls) the nil
+// constant, or a value that cannot be nil (a fresh error, an allocation, a
+// value boxed into an interface)?
+func (val *Valuation) nilness(f *wframe, v ssa.Value) (isNil, known bool) {
+	r, _ := val.rootIn(f, v)
+	switch x := r.(type) {
+	case *ssa.Const:
+		if x.Value == nil {
+			return true, true
+		}
+	case *ssa.MakeInterface, *ssa.Alloc, *ssa.MakeSlice, *ssa.MakeMap, *ssa.MakeClosure, *ssa.Function:
+		return false, true
+	case *ssa.Call:
+		if g := x.Call.StaticCallee(); g != nil {
+			switch g.String() {
+			case "fmt.Errorf", "errors.New":
+				return false, true
+			}
+		}
+	}
+	return false, false
+}
+
 // Walk follows the CFG from `start` (entered from `from`, may be nil).
 func (val *Valuation) Walk(start, from *ssa.BasicBlock) WalkResult {
 	top := newFrame(start.Parent(), nil, nil)
@@ -337,7 +391,7 @@ func (val *Valuation) Walk(start, from *ssa.BasicBlock) WalkResult {
 }
 
 func (val *Valuation) walkFrame(f *wframe, start, from *ssa.BasicBlock, depth int) WalkResult {
-	res := WalkResult{Phi: f.phiVal, RetInt: map[int]int64{}, RetBool: map[int]bool{}}
+	res := WalkResult{Phi: f.phiVal, RetInt: map[int]int64{}, RetBool: map[int]bool{}, RetVal: map[int]ssa.Value{}}
 	cur, prev := start, from
 	val.cur = f
 	for steps := 0; steps < 10000; steps++ {
@@ -408,6 +462,14 @@ func (val *Valuation) walkFrame(f *wframe, start, from *ssa.BasicBlock, depth in
 			if call, ok := in.(*ssa.Call); ok && val.Enter != nil && depth < 6 {
 				if g := call.Call.StaticCallee(); g != nil && g.Blocks != nil && val.Enter(g) && !onStack(f, g) {
 					sub := newFrame(g, f, call.Call.Args)
+					if val.bind == nil {
+						val.bind = map[*ssa.Parameter]boundArg{}
+					}
+					for i, p := range g.Params {
+						if i < len(call.Call.Args) {
+							val.bind[p] = boundArg{call.Call.Args[i], f}
+						}
+					}
 					sr := val.walkFrame(sub, g.Blocks[0], nil, depth+1)
 					res.Instrs = append(res.Instrs, sr.Instrs...)
 					val.cur = f
@@ -448,6 +510,7 @@ func (val *Valuation) walkFrame(f *wframe, start, from *ssa.BasicBlock, depth in
 				if b, ok := val.evalBool(f, r, nil, 0); ok {
 					res.RetBool[i] = b
 				}
+				res.RetVal[i], _ = val.rootIn(f, r)
 			}
 			res.End, res.Prev, res.OK = last, prev, true
 			return res
